@@ -121,66 +121,86 @@
             worker.read_to_last();
             let back = crate::port_registry::bind_std_listener(back_address, "raw recording backend (h2 case)");
             back.set_nonblocking(true).unwrap();
-            let mut tls = raw_h2_connection(std::net::SocketAddr::from(([127, 0, 0, 1], front_port)));
-            h2_handshake(&mut tls);
-            let mut h1 = Vec::new();
-            lit(&mut h1, b":method", b"POST"); lit(&mut h1, b":scheme", b"https"); lit(&mut h1, b":path", b"/upload"); lit(&mut h1, b":authority", b"localhost"); lit(&mut h1, b"content-length", b"5");
+            let mut hp = Vec::new();
+            lit(&mut hp, b":method", b"POST"); lit(&mut hp, b":scheme", b"https"); lit(&mut hp, b":path", b"/upload"); lit(&mut hp, b":authority", b"localhost");
+            let mut hcl = hp.clone();
+            lit(&mut hcl, b"content-length", b"5");
             let mut tr = Vec::new();
             lit(&mut tr, b"x-foo", b"bar");
-            let mut h2 = Vec::new();
-            lit(&mut h2, b":method", b"GET"); lit(&mut h2, b":scheme", b"https"); lit(&mut h2, b":path", b"/next"); lit(&mut h2, b":authority", b"localhost");
-            n += 1;
-            let _ = tls.write_all(&H2Frame::headers(1, h1, true, false).encode());
-            let _ = tls.write_all(&H2Frame::data(1, b"hello".to_vec(), false).encode());
-            let _ = tls.write_all(&H2Frame::headers(1, tr, true, true).encode());
-            let _ = tls.flush();
-            // record the backend connection that carries the POST, answer it, then send the second request
-            let mut streams: Vec<Vec<u8>> = Vec::new();
-            let mut deadline = Instant::now() + Duration::from_millis(4000);
-            let mut second_sent = false;
-            loop {
-                match back.accept() {
-                    Ok((mut conn, _)) => {
-                        conn.set_nonblocking(false).unwrap();
-                        conn.set_read_timeout(Some(Duration::from_millis(500))).unwrap();
-                        let mut seen = Vec::new();
-                        let mut buf = [0u8; 8192];
-                        loop { match conn.read(&mut buf) { Ok(0) => break, Ok(k) => seen.extend_from_slice(&buf[..k]), Err(_) => break } }
-                        let _ = conn.write_all(b"HTTP/1.1 200 OK\r\nContent-Length: 2\r\n\r\nok");
-                        if !second_sent {
-                            second_sent = true;
-                            let _ = tls.write_all(&H2Frame::headers(3, h2.clone(), true, true).encode());
-                            let _ = tls.flush();
-                            // what arrives on the SAME backend connection after the first answer
-                            conn.set_read_timeout(Some(Duration::from_millis(700))).unwrap();
+            let mut hnext = Vec::new();
+            lit(&mut hnext, b":method", b"GET"); lit(&mut hnext, b":scheme", b"https"); lit(&mut hnext, b":path", b"/next"); lit(&mut hnext, b":authority", b"localhost");
+            for (name, head, chunked) in [("H2 front: HEADERS(POST /upload, content-length: 5), DATA(hello), trailer HEADERS(x-foo: bar, END_STREAM), then GET /next on stream 3", hcl.clone(), false),
+                                          ("H2 front: HEADERS(POST /upload, no content-length), DATA(hello), trailer HEADERS(x-foo: bar, END_STREAM), then GET /next on stream 3", hp.clone(), true)] {
+                while back.accept().is_ok() {}
+                let mut tls = raw_h2_connection(std::net::SocketAddr::from(([127, 0, 0, 1], front_port)));
+                h2_handshake(&mut tls);
+                n += 1;
+                let _ = tls.write_all(&H2Frame::headers(1, head, true, false).encode());
+                let _ = tls.write_all(&H2Frame::data(1, b"hello".to_vec(), false).encode());
+                let _ = tls.write_all(&H2Frame::headers(1, tr.clone(), true, true).encode());
+                let _ = tls.flush();
+                // record the backend connection that carries the POST, answer it, then send the second request
+                let mut streams: Vec<Vec<u8>> = Vec::new();
+                let mut deadline = Instant::now() + Duration::from_millis(4000);
+                let mut second_sent = false;
+                loop {
+                    match back.accept() {
+                        Ok((mut conn, _)) => {
+                            conn.set_nonblocking(false).unwrap();
+                            conn.set_read_timeout(Some(Duration::from_millis(500))).unwrap();
+                            let mut seen = Vec::new();
+                            let mut buf = [0u8; 8192];
                             loop { match conn.read(&mut buf) { Ok(0) => break, Ok(k) => seen.extend_from_slice(&buf[..k]), Err(_) => break } }
                             let _ = conn.write_all(b"HTTP/1.1 200 OK\r\nContent-Length: 2\r\n\r\nok");
+                            if !second_sent {
+                                second_sent = true;
+                                let _ = tls.write_all(&H2Frame::headers(3, hnext.clone(), true, true).encode());
+                                let _ = tls.flush();
+                                // what arrives on the SAME backend connection after the first answer
+                                conn.set_read_timeout(Some(Duration::from_millis(700))).unwrap();
+                                loop { match conn.read(&mut buf) { Ok(0) => break, Ok(k) => seen.extend_from_slice(&buf[..k]), Err(_) => break } }
+                                let _ = conn.write_all(b"HTTP/1.1 200 OK\r\nContent-Length: 2\r\n\r\nok");
+                            }
+                            streams.push(seen);
+                            deadline = Instant::now() + Duration::from_millis(700);
                         }
-                        streams.push(seen);
-                        deadline = Instant::now() + Duration::from_millis(700);
-                    }
-                    Err(_) if Instant::now() < deadline => thread::sleep(Duration::from_millis(20)),
-                    Err(_) => break,
-                }
-            }
-            if !streams.is_empty() { forwarded += 1; }
-            let name = "H2 front: HEADERS(POST /upload, content-length: 5), DATA(hello), trailer HEADERS(x-foo: bar, END_STREAM), then GET /next on stream 3";
-            'h2case: for (si, seen) in streams.iter().enumerate() {
-                let heads = heads_seen_by_backend(seen);
-                println!("N-h1wire case {name:?}: backend connection #{si} received {} octets, {} request head(s): {:?}", seen.len(), heads.len(), heads.iter().map(|h| h.lines().next().unwrap_or("").to_string()).collect::<Vec<_>>());
-                for (k, h) in heads.iter().enumerate() {
-                    if !h.to_ascii_lowercase().contains("\nsozu-id:") {
-                        fails.push((name.to_string(), format!("on the HTTP/1.1 backend connection, message #{k} as the backend frames the bytes starts with {:?}: octets that are not a request sozu processed follow a Content-Length framed body; bytes received by the backend: {:?}", h.lines().next().unwrap_or(""), String::from_utf8_lossy(seen))));
-                        break 'h2case;
+                        Err(_) if Instant::now() < deadline => thread::sleep(Duration::from_millis(20)),
+                        Err(_) => break,
                     }
                 }
-                // octets after the last complete head + body that are not a head at all (no empty line yet) are stray too
-                let lower = String::from_utf8_lossy(seen).to_ascii_lowercase();
-                if lower.contains("x-foo") { fails.push((name.to_string(), format!("the trailer field reached the HTTP/1.1 backend after a Content-Length framed body: {:?}", String::from_utf8_lossy(seen)))); break 'h2case; }
+                if !streams.is_empty() { forwarded += 1; }
+                'h2case: for (si, seen) in streams.iter().enumerate() {
+                    println!("N-h1wire case {name:?}: backend connection #{si} received {:?}", String::from_utf8_lossy(seen));
+                    let Some(p) = seen.windows(4).position(|w| w == b"\r\n\r\n") else { continue };
+                    let first_head = String::from_utf8_lossy(&seen[..p]).to_ascii_lowercase();
+                    if !first_head.starts_with("post /upload") { continue; }
+                    let rest = &seen[p + 4..];
+                    // the message body as the framing of the forwarded head requires it, then only requests sozu processed
+                    let body_end = if chunked {
+                        let want: &[u8] = b"5\r\nhello\r\n0\r\nx-foo: bar\r\n\r\n";
+                        let want_no_trailers: &[u8] = b"5\r\nhello\r\n0\r\n\r\n";
+                        if rest.starts_with(want) { want.len() } else if rest.starts_with(want_no_trailers) { want_no_trailers.len() } else {
+                            fails.push((name.to_string(), format!("the chunked body sozu writes to the HTTP/1.1 backend is {:?}: not a valid chunked coding (RFC 9112 §7.1: chunks, last-chunk \"0\", trailer section, empty line)", String::from_utf8_lossy(&rest[..rest.len().min(80)]))));
+                            break 'h2case;
+                        }
+                    } else {
+                        if !rest.starts_with(b"hello") { fails.push((name.to_string(), format!("the body is {:?}", String::from_utf8_lossy(&rest[..rest.len().min(40)])))); break 'h2case; }
+                        5
+                    };
+                    let after = &rest[body_end..];
+                    if !after.is_empty() {
+                        let hs = heads_seen_by_backend(after);
+                        let bad = hs.first().map(|h| !h.to_ascii_lowercase().contains("\nsozu-id:")).unwrap_or(true);
+                        if bad {
+                            fails.push((name.to_string(), format!("on the HTTP/1.1 backend connection the octets {:?} follow the end of the message: they are not a request sozu processed, the backend reads them as the start of the next message", String::from_utf8_lossy(&after[..after.len().min(80)]))));
+                            break 'h2case;
+                        }
+                    }
+                }
             }
             worker.soft_stop();
             let _ = worker.wait_for_server_stop();
         }
         let fl: Vec<String> = fails.iter().map(|(i, o)| format!("{{\"input\": {:?}, \"observed\": {:?}}}", i, o)).collect();
-        println!("{{\"bound\": \"5 HTTP/1.1 client byte strings and 1 HTTP/2 scenario (Content-Length framed request with trailers, then a second request) through a real worker to a recording backend\", \"states\": {n}, \"pairs\": {n}, \"nontrivial_pairs\": {forwarded}, \"failures\": [{}]}}", fl.join(", "));
+        println!("{{\"bound\": \"5 HTTP/1.1 client byte strings and 2 HTTP/2 scenarios (a Content-Length framed and a length-less request with trailers, each followed by a second request) through a real worker to a recording backend\", \"states\": {n}, \"pairs\": {n}, \"nontrivial_pairs\": {forwarded}, \"failures\": [{}]}}", fl.join(", "));
     }
